@@ -84,7 +84,7 @@ structure CensusInv (tc : TaskConf) (task : String) (o : Orch) : Prop where
 private theorem matchesKey_iff (o : Orch) (id : String) (key : List (String × String)) :
     o.matchesKey id key = true ↔ ∀ kv ∈ key, (id, kv.1, kv.2) ∈ o.argIdx := by
   unfold Orch.matchesKey
-  simp [List.all_eq_true, List.contains_iff_mem]
+  simp [List.all_eq_true]
 
 /-- `existing` returns nothing iff no recorded invocation of the task passes both filters -/
 private theorem existing_nil (o : Orch) (task : String) (key : List (String × String)) (sts : List Status)
@@ -185,5 +185,291 @@ private theorem newInvocation_shape (s : Sys) (tc : TaskConf) (f task call : Str
       rintro r ⟨⟨k', v'⟩, _, rfl⟩
       simp [Ne.symm hne]
     · right; subst hid; exact ⟨(k, v), hkv, rfl⟩
+
+
+private theorem get?_append_ne {β : Type} (m : AMap String β) (k f : String) (v : β) (h : k ≠ f) :
+    AMap.get? (m ++ [(f, v)]) k = AMap.get? m k := by
+  induction m with
+  | nil => simp [AMap.get?, Ne.symm h]
+  | cons p rest ih =>
+    obtain ⟨k', v'⟩ := p
+    by_cases hk : k' = k
+    · simp [AMap.get?, hk]
+    · simp [AMap.get?, hk, ih]
+
+private theorem mem_get?_some {β : Type} (m : AMap String β) (k : String) (v : β) (h : (k, v) ∈ m) : m.has k = true := by
+  induction m with
+  | nil => simp at h
+  | cons p rest ih =>
+    obtain ⟨k', v'⟩ := p
+    by_cases hk : k' = k
+    · simp [AMap.has, AMap.get?, hk]
+    · rcases List.mem_cons.1 h with e | e
+      · injection e with e1; exact absurd e1.symm hk
+      · have := ih e
+        simpa [AMap.has, AMap.get?, hk] using this
+
+/-- registering a fresh invocation of `task` whose key matches no REGISTERED invocation keeps the census -/
+theorem newInvocation_preserves (s : Sys) (tc : TaskConf) (f task call : String) (args : List (String × String))
+    (rid : Option String) (now : Int) (hreg : tc.regMode ≠ .disabled) (hinv : CensusInv tc task s.orch)
+    (hf1 : s.orch.recs.has f = false) (hf2 : s.orch.info.has f = false)
+    (hshape : ∀ j infj, (j, infj) ∈ s.orch.info → infj.task = task → SameShape args infj.args)
+    (hnd : (args.map (·.1)).Nodup)
+    (hnone : (s.orch.existing task (keyFor tc.regMode tc.keyArgs args) [.registered]).head? = none) :
+    CensusInv tc task (newInvocation s tc f task call args rid now).orch := by
+  have hrows0 : ∀ k v, (f, k, v) ∉ s.orch.argIdx := by
+    intro k v hm
+    obtain ⟨inf, hi⟩ := hinv.rowsKnown f k v hm
+    exact has_false_not_mem _ _ hf2 inf hi
+  obtain ⟨hinfo, hrecs, hidx⟩ := newInvocation_shape s tc f task call args rid now hreg hf1 hf2 hrows0
+  generalize (newInvocation s tc f task call args rid now).orch = o' at hinfo hrecs hidx ⊢
+  have hmem : ∀ id inf, (id, inf) ∈ o'.info ↔ (id, inf) ∈ s.orch.info ∨ (id = f ∧ inf = { task := task, call := call, args := args }) := by
+    intro id inf; rw [hinfo]; simp [List.mem_append]
+  have hne_of_old : ∀ id inf, (id, inf) ∈ s.orch.info → id ≠ f := by
+    intro id inf hm e; subst e; exact has_false_not_mem _ _ hf2 inf hm
+  have hstat_old : ∀ id, id ≠ f → o'.statusOf id = s.orch.statusOf id := by
+    intro id hne
+    simp only [Orch.statusOf, Orch.get, hrecs, get?_append_ne _ _ _ _ hne]
+  have hstat_new : o'.statusOf f = some .registered := by
+    simp only [Orch.statusOf, Orch.get, hrecs, get?_append_absent _ _ _ hf1, Option.map_some]
+  -- the fresh invocation matches no REGISTERED one
+  have hfresh : ∀ i infi, (i, infi) ∈ s.orch.info → infi.task = task → s.orch.statusOf i = some .registered →
+      ¬ keyIn tc.regMode tc.keyArgs args infi.args := by
+    intro i infi hm ht hst hk
+    refine existing_nil s.orch task _ [.registered] hnone i infi hm ht (Or.inr ⟨.registered, hst, by simp⟩) (Or.inr ?_)
+    rw [matchesKey_iff]
+    intro kv hkv
+    exact (hinv.rows i infi hm ht kv.1 kv.2).2 (hk kv hkv)
+  refine ⟨?_, ?_, ?_, ?_, ?_, ?_⟩
+  · rw [hinfo]; exact nodup_append_absent _ _ _ hinv.infoNodup hf2
+  · rw [hrecs]; exact nodup_append_absent _ _ _ hinv.recsNodup hf1
+  · intro id inf hm ht k v
+    rcases (hmem id inf).1 hm with hold | ⟨rfl, rfl⟩
+    · have hne := hne_of_old id inf hold
+      rw [hidx]
+      constructor
+      · rintro (h | ⟨e, _⟩)
+        · exact (hinv.rows id inf hold ht k v).1 h
+        · exact absurd e hne
+      · intro h; exact Or.inl ((hinv.rows id inf hold ht k v).2 h)
+    · rw [hidx]
+      constructor
+      · rintro (h | ⟨_, h⟩)
+        · exact absurd h (hrows0 k v)
+        · exact h
+      · intro h; exact Or.inr ⟨rfl, h⟩
+  · intro id k v hm
+    rcases (hidx id k v).1 hm with h | ⟨rfl, _⟩
+    · obtain ⟨inf, hi⟩ := hinv.rowsKnown id k v h
+      exact ⟨inf, (hmem id inf).2 (Or.inl hi)⟩
+    · exact ⟨_, (hmem _ _).2 (Or.inr ⟨rfl, rfl⟩)⟩
+  · intro i j infi infj hi hj hti htj
+    rcases (hmem i infi).1 hi with hio | ⟨rfl, rfl⟩ <;> rcases (hmem j infj).1 hj with hjo | ⟨rfl, rfl⟩
+    · exact hinv.shape i j infi infj hio hjo hti htj
+    · have := hshape i infi hio hti
+      exact ⟨this.1.symm, this.1 ▸ this.2⟩
+    · exact hshape j infj hjo htj
+    · exact ⟨rfl, hnd⟩
+  · intro i j infi infj hij hi hj hti htj hsi hsj
+    rcases (hmem i infi).1 hi with hio | ⟨rfl, rfl⟩ <;> rcases (hmem j infj).1 hj with hjo | ⟨rfl, rfl⟩
+    · rw [hstat_old i (hne_of_old i infi hio)] at hsi
+      rw [hstat_old j (hne_of_old j infj hjo)] at hsj
+      exact hinv.uniq i j infi infj hij hio hjo hti htj hsi hsj
+    · -- old i against the fresh one
+      rw [hstat_old i (hne_of_old i infi hio)] at hsi
+      intro hk
+      have hs := hshape i infi hio hti
+      exact hfresh i infi hio hti hsi (keyIn_symm _ _ _ _ ⟨hs.1.symm, hs.1 ▸ hs.2⟩ hk)
+    · rw [hstat_old j (hne_of_old j infj hjo)] at hsj
+      exact hfresh j infj hjo htj hsj
+    · exact absurd rfl hij
+
+/-- `existing` only returns ids that have an info record -/
+private theorem existing_mem_info (o : Orch) (task : String) (key : List (String × String)) (sts : List Status) (id : String)
+    (h : id ∈ o.existing task key sts) : o.info.has id = true := by
+  unfold Orch.existing at h
+  obtain ⟨⟨id', inf⟩, hm, rfl⟩ := List.mem_map.1 h
+  exact mem_get?_some _ _ inf (List.mem_filter.1 hm).1
+
+/-- **C07 census, one submission**: `route_call` of a task with registration concurrency keeps the census, whatever it
+    answers (new invocation, reuse, reuse with different arguments, rejection). -/
+theorem routeCall_preserves (s : Sys) (tc : TaskConf) (task call : String) (args : List (String × String))
+    (fresh : String) (rid : Option String) (now : Int) (hreg : tc.regMode ≠ .disabled) (hinv : CensusInv tc task s.orch)
+    (hf1 : s.orch.recs.has fresh = false) (hf2 : s.orch.info.has fresh = false)
+    (hshape : ∀ j infj, (j, infj) ∈ s.orch.info → infj.task = task → SameShape args infj.args)
+    (hnd : (args.map (·.1)).Nodup) :
+    CensusInv tc task (routeCall s tc task call args fresh rid now).1.orch := by
+  unfold routeCall
+  simp only [hreg, if_false]
+  cases hex : (s.orch.existing task (keyFor tc.regMode tc.keyArgs args) [.registered]).head? with
+  | none => exact newInvocation_preserves s tc fresh task call args rid now hreg hinv hf1 hf2 hshape hnd hex
+  | some id =>
+    have hin : id ∈ s.orch.existing task (keyFor tc.regMode tc.keyArgs args) [.registered] := List.mem_of_mem_head? hex
+    have hhas := existing_mem_info _ _ _ _ _ hin
+    cases hg : s.orch.info.get? id with
+    | none => simp [AMap.has, hg] at hhas
+    | some inf =>
+      simp only [hg]
+      split
+      · exact hinv
+      · split <;> exact hinv
+
+
+/-- **C07 census, status changes**: no accepted status transition (claim, run, finish, retry, concurrency control, recovery,
+    kill, re-route …) breaks the census — none of them makes an invocation REGISTERED (`registered_only_by_registration`),
+    and none touches the indexes. -/
+theorem setStatus_preserves (tc : TaskConf) (task : String) (o : Orch) (id : String) (req : Status) (rid : Option String)
+    (now : Int) (hinv : CensusInv tc task o) : CensusInv tc task (o.setStatus Gen.table id req rid now).1 := by
+  unfold Orch.setStatus
+  cases hg : o.get id with
+  | none => exact hinv
+  | some cur =>
+    simp only
+    cases hs : step Gen.table (some cur.srec) req rid with
+    | error e => exact hinv
+    | ok r =>
+      simp only
+      have hreq : r.status = req := by
+        have := ((C01.step_ok_iff Gen.table _ _ _ _).1 hs).2.2
+        rw [← this]
+      have hnr : req ≠ .registered := by
+        intro e; subst e; exact registered_only_by_registration cur.srec rid r hs
+      have hstat : ∀ i, ({ o with recs := o.recs.set id { status := r.status, owner := r.owner, ts := now } } : Orch).statusOf i
+          = some .registered → o.statusOf i = some .registered := by
+        intro i hi
+        by_cases hi' : i = id
+        · subst hi'
+          simp only [Orch.statusOf, Orch.get, AMap.get?_set_self, Option.map_some, Option.some.injEq] at hi
+          exact absurd (hreq ▸ hi) hnr
+        · simpa only [Orch.statusOf, Orch.get, AMap.get?_set_other _ _ _ _ hi'] using hi
+      exact ⟨hinv.infoNodup, AMap.nodupKeys_set _ hinv.recsNodup _ _, hinv.rows, hinv.rowsKnown, hinv.shape,
+        fun i j infi infj hij hi hj hti htj hsi hsj => hinv.uniq i j infi infj hij hi hj hti htj (hstat i hsi) (hstat j hsj)⟩
+
+/-- the empty orchestrator satisfies the census -/
+theorem census_init (tc : TaskConf) (task : String) : CensusInv tc task {} :=
+  ⟨List.nodup_nil, List.nodup_nil, fun _ _ h => absurd h List.not_mem_nil, fun _ _ _ h => absurd h List.not_mem_nil,
+   fun _ _ _ _ h => absurd h List.not_mem_nil, fun _ _ _ _ _ h => absurd h List.not_mem_nil⟩
+
+/-- one event of the life of a task with registration concurrency: a submission (fresh id, arguments bound to the task's
+    signature) or any status request by anybody -/
+inductive Ev where
+  | submit (call : String) (args : List (String × String)) (fresh : String) (rid : Option String) (now : Int)
+  | status (id : String) (req : Status) (rid : Option String) (now : Int)
+
+def applyEv (tc : TaskConf) (task : String) (s : Sys) : Ev → Sys
+  | .submit call args fresh rid now => (routeCall s tc task call args fresh rid now).1
+  | .status id req rid now => { s with orch := (s.orch.setStatus Gen.table id req rid now).1 }
+
+/-- side conditions of a history, checked against the state each event meets: submitted ids are fresh and the arguments
+    bind the parameter names `names` (one signature), each once -/
+def EvOk (names : List String) (s : Sys) : Ev → Prop
+  | .submit _ args fresh _ _ => s.orch.recs.has fresh = false ∧ s.orch.info.has fresh = false ∧
+      args.map (·.1) = names ∧ names.Nodup
+  | .status _ _ _ _ => True
+
+def HistOk (tc : TaskConf) (task : String) (names : List String) : Sys → List Ev → Prop
+  | _, [] => True
+  | s, e :: rest => EvOk names s e ∧ HistOk tc task names (applyEv tc task s e) rest
+
+/-- all recorded invocations of the task bind `names` -/
+def Bound (task : String) (names : List String) (o : Orch) : Prop :=
+  ∀ j infj, (j, infj) ∈ o.info → infj.task = task → infj.args.map (·.1) = names
+
+private theorem mem_set {β : Type} (m : AMap String β) (k : String) (v : β) (p : String × β) (h : p ∈ m.set k v) :
+    p ∈ m ∨ p = (k, v) := by
+  induction m with
+  | nil => simp [AMap.set] at h; exact Or.inr h
+  | cons q rest ih =>
+    obtain ⟨k', v'⟩ := q
+    by_cases hk : k' = k
+    · simp only [AMap.set, hk, if_true, List.mem_cons] at h
+      rcases h with e | e
+      · exact Or.inr e
+      · exact Or.inl (List.mem_cons_of_mem _ e)
+    · simp only [AMap.set, hk, if_false, List.mem_cons] at h
+      rcases h with e | e
+      · exact Or.inl (by rw [e]; exact List.mem_cons_self)
+      · rcases ih e with h' | h'
+        · exact Or.inl (List.mem_cons_of_mem _ h')
+        · exact Or.inr h'
+
+private theorem routeCall_bound (s : Sys) (tc : TaskConf) (task call : String) (args : List (String × String))
+    (fresh : String) (rid : Option String) (now : Int) (names : List String) (hb : Bound task names s.orch)
+    (hargs : args.map (·.1) = names) (hf1 : s.orch.recs.has fresh = false) :
+    Bound task names (routeCall s tc task call args fresh rid now).1.orch := by
+  have hnew : Bound task names (newInvocation s tc fresh task call args rid now).orch := by
+    intro j infj hm ht
+    have hidx : ∀ (o : Orch) (i : String), (o.indexArgs i).info = o.info := by
+      intro o i; unfold Orch.indexArgs; split <;> rfl
+    have hreg : (s.orch.registerInv fresh { task := task, call := call, args := args } rid now).info
+        = s.orch.info.set fresh { task := task, call := call, args := args } := by
+      simp [Orch.registerInv, Orch.register, hf1]
+    have hinfo : (newInvocation s tc fresh task call args rid now).orch.info
+        = s.orch.info.set fresh { task := task, call := call, args := args } := by
+      unfold newInvocation
+      simp only
+      split
+      · rw [hidx, hreg]
+      · exact hreg
+    rw [hinfo] at hm
+    -- an entry of `set` is the new one or an old one
+    have : (j, infj) ∈ s.orch.info ∨ infj = { task := task, call := call, args := args } := by
+      rcases mem_set _ _ _ _ hm with h | h
+      · exact Or.inl h
+      · injection h with _ h2; exact Or.inr h2
+    rcases this with h | h
+    · exact hb j infj h ht
+    · subst h; exact hargs
+  unfold routeCall
+  split
+  · exact hnew
+  · split
+    · exact hnew
+    · split
+      · exact hnew
+      · split
+        · exact hb
+        · split <;> exact hb
+
+/-- **C07 census over whole histories**: starting from the empty orchestrator, after ANY sequence of submissions of the
+    task (any arguments over its signature, any order, duplicates, differing non-key arguments) interleaved with ANY
+    status requests by anybody (claims, runs, completions, retries, recovery, kills, refused requests), no two REGISTERED
+    invocations of the task have matching registration keys.  Sequential: each event is one atomic step. -/
+theorem census_holds_after_any_history (tc : TaskConf) (task : String) (names : List String)
+    (hreg : tc.regMode ≠ .disabled) (evs : List Ev) :
+    ∀ (s : Sys), CensusInv tc task s.orch → Bound task names s.orch → HistOk tc task names s evs →
+      CensusInv tc task (evs.foldl (applyEv tc task) s).orch := by
+  induction evs with
+  | nil => intro s h _ _; exact h
+  | cons e rest ih =>
+    intro s hinv hb hok
+    obtain ⟨he, hrest⟩ := hok
+    simp only [List.foldl_cons]
+    cases e with
+    | submit call args fresh rid now =>
+      obtain ⟨hf1, hf2, hargs, hnd⟩ := he
+      have hshape : ∀ j infj, (j, infj) ∈ s.orch.info → infj.task = task → SameShape args infj.args := by
+        intro j infj hm ht
+        exact ⟨hargs.trans (hb j infj hm ht).symm, hargs ▸ hnd⟩
+      exact ih _ (routeCall_preserves s tc task call args fresh rid now hreg hinv hf1 hf2 hshape (hargs ▸ hnd))
+        (routeCall_bound s tc task call args fresh rid now names hb hargs hf1) hrest
+    | status id req rid now =>
+      refine ih _ (setStatus_preserves tc task s.orch id req rid now hinv) ?_ hrest
+      intro j infj hm ht
+      have : ((s.orch.setStatus Gen.table id req rid now).1).info = s.orch.info := by
+        unfold Orch.setStatus
+        split
+        · rfl
+        · split <;> rfl
+      exact hb j infj (this ▸ hm) ht
+
+/-- non-vacuity: a concrete two-submission history meets the side conditions and the census is not trivially empty:
+    same key twice is collapsed (one REGISTERED), a different key gives a second one -/
+example :
+    let tc : TaskConf := { regMode := .keys, keyArgs := ["k"] }
+    let evs := [Ev.submit "c1" [("k", "1"), ("x", "a")] "i1" none 0, Ev.submit "c2" [("k", "1"), ("x", "b")] "i2" none 1,
+                Ev.submit "c3" [("k", "2"), ("x", "a")] "i3" none 2]
+    let s := evs.foldl (applyEv tc "t") {}
+    (s.orch.existing "t" [] [.registered]) = ["i1", "i3"] := by decide
 
 end Pynenc.C07
